@@ -352,7 +352,19 @@ def h_addrset(ctx, head, pay, via="file"):
     return out
 
 
-def h_array(ctx, code, m, sym_at=None):
+def h_trunc(ctx, prop, head, pay, via="file"):
+    """the frame cut down to every shorter payload length (length field adjusted): 'truncated payload'"""
+    import symx
+
+    n = symx.choice(ctx, "n", list(range(1, len(pay) // 2)))
+    line = head[:46] + f"{n:03d}" + " " + pay[: 2 * n]
+    out, msg = decode_c01(ctx, line, via)
+    if prop == "C05" and msg is not None:
+        check_c05(ctx, line, head[41:45], pay[: 2 * n], msg, False)
+    return out
+
+
+def h_array(ctx, code, m, sym_at=None, shape="bcast"):
     """an m-element array decodes to the list of what each element decodes to on its own"""
     from ramses_tx.message import Message
     from ramses_tx.packet import Packet
@@ -360,15 +372,16 @@ def h_array(ctx, code, m, sym_at=None):
     n = ARRAY_ELEM[code]
     src = ARRAY_SRC[code] + ":145038"
     payload = array_payload(ctx, code, m, sym_at)
-    head = "045  I --- " + src + " --:------ " + src + " " + code + " "
+    # 'bcast': the device announces to itself (the usual array form); 'to': addressed to another device
+    head = "045  I --- " + src + (" --:------ " + src if shape == "bcast" else " 01:056789 --:------") + " " + code + " "
     line = head + f"{n * m:03d}" + " " + payload
     out, msg = decode_c01(ctx, line)
     if msg is None:
         return out
     p = msg.payload
     if not isinstance(p, list):
-        # the library treats this payload as a single element (m == 1, or its own array test says no)
-        ctx.check(m == 1 or not msg._has_array, "C05:array-decodes-to-a-list")
+        # a single element decodes to a dict; m > 1 elements must not be passed off as one
+        ctx.check(m == 1, "C05:array-decodes-to-a-list", info=f"{m} elements decoded as a {type(p).__name__}")
         return "ok:" + type(p).__name__
     ctx.check(len(p) == m, "C05:array-has-one-entry-per-element", info=f"{len(p)} for {m}")
     check_idx(ctx, code, payload, p)
@@ -438,12 +451,16 @@ def concrete_line(item):
     if h == "field":
         a, b = FIELDS[prm["field"]]
         return prm["head"][:a] + cex["f"] + prm["head"][b:] + prm["pay"], None, prm["pay"]
+    if h == "trunc":
+        n = int(cex["n"])
+        return prm["head"][:46] + f"{n:03d}" + " " + prm["pay"][: 2 * n], prm["head"][41:45], prm["pay"][: 2 * n]
     if h == "array":
         code, m = prm["code"], prm["m"]
         n = ARRAY_ELEM[code]
         src = ARRAY_SRC[code] + ":145038"
         pay = array_payload(cex, code, m, prm.get("sym_at"))
-        return "045  I --- " + src + " --:------ " + src + " " + code + " " + f"{n * m:03d}" + " " + pay, code, pay
+        addrs = src + (" --:------ " + src if prm.get("shape", "bcast") == "bcast" else " 01:056789 --:------")
+        return "045  I --- " + addrs + " " + code + " " + f"{n * m:03d}" + " " + pay, code, pay
     raise ValueError(h)
 
 
@@ -489,7 +506,7 @@ def replay_decode(item):
         p = msg.payload
         head = line[: 46]
         if not isinstance(p, list):
-            rec.check(m == 1 or not msg._has_array, "C05:array-decodes-to-a-list")
+            rec.check(m == 1, "C05:array-decodes-to-a-list")
         else:
             rec.check(len(p) == m, "C05:array-has-one-entry-per-element")
             check_idx(rec, code, payload, p)
